@@ -713,3 +713,382 @@ Proof.
           by (cbn [app]; repeat (rewrite <- app_assoc; cbn [app]); reflexivity).
         rewrite <- (build_map_incr _ (incr_pruned _ KS)). apply R. exact L.
 Qed.
+
+(* ------------------------------------------------------------------ *)
+(** * block context *)
+
+(** a byte that can start the next line's content *)
+Definition ok_start (c0 : N) : Prop := c0 <> 32 /\ c0 <> 10 /\ c0 <> 9 /\ lit_byte_ok c0.
+
+(** what follows a node in block context: the end of the document, or a line
+    feed and a line indented by [k] < [b] blanks; [rest'] is where the reader
+    stands afterwards (line-start form) *)
+Inductive follows_b (b : nat) : octs -> octs -> nat -> Prop :=
+| fb_end c : follows_b b [] [] c
+| fb_line k c0 r : (k < b)%nat -> ok_start c0 -> follows_b b (10 :: repeat SP k ++ c0 :: r) (c0 :: r) k.
+
+Lemma follows_b_weaken b b' rest rest' k : (b <= b')%nat -> follows_b b rest rest' k -> follows_b b' rest rest' k.
+Proof. intros L H. destruct H; constructor; auto; lia. Qed.
+
+Lemma next_line_spaces k : forall c c0 r, c0 <> 32 -> c0 <> 10 ->
+  next_line (repeat SP k ++ c0 :: r) c true = Some (c0 :: r, (c + k)%nat).
+Proof.
+  induction k as [|k IH]; intros c c0 r N1 N2; cbn [repeat app next_line].
+  - replace (c0 =? 10) with false by (symmetry; now apply N.eqb_neq).
+    replace (c0 =? 32) with false by (symmetry; now apply N.eqb_neq). f_equal. f_equal. lia.
+  - change (SP =? 10) with false. change (SP =? 32) with true. cbv iota. rewrite IH by assumption. f_equal. f_equal. lia.
+Qed.
+
+Lemma to_ls_follows b rest rest' k c : follows_b b rest rest' k ->
+  exists c', to_ls rest c = Some (rest', c') /\ (rest' <> [] -> c' = k).
+Proof.
+  intros H. destruct H as [c1|k c0 r K (N1 & N2 & _)].
+  - exists c. split; [reflexivity|congruence].
+  - exists k. split; [|reflexivity]. unfold to_ls. cbn [next_line]. change (10 =? 10) with true. cbv iota.
+    now rewrite next_line_spaces.
+Qed.
+
+Lemma follows_b_not_value b rest rest' k : follows_b b rest rest' k -> is_value_mark rest = false.
+Proof. intros H. destruct H; reflexivity. Qed.
+
+Definition BlockReads (t : item) (w : octs) (c minlit : nat) (akey : bool) (b : nat) : Prop :=
+  forall fuel rest rest' k, (length w < fuel)%nat -> follows_b b rest rest' k ->
+  exists c', block_node fuel (w ++ rest) c minlit akey = Some (t, rest', c') /\ (rest' <> [] -> c' = k).
+
+(** ** scalars *)
+Lemma lit_load_end li minlit cps :
+  (minlit <= li)%nat -> forallb ok_cp cps = true -> literal_safe (utf8 cps) = true ->
+  exists c', lit_load (10 :: lit_body li true (decode (utf8 cps))) minlit = Some (utf8 cps, [], c').
+Proof.
+  intros ML OK SAFE. pose proof (lit_roundtrip li minlit cps ML OK SAFE) as H.
+  unfold lit_write in H. cbn [load_scalar] in H.
+  destruct (lit_load (10 :: lit_body li true (decode (utf8 cps))) minlit) as [[[x y] c]|]; [|discriminate H].
+  inversion H; subst. eauto.
+Qed.
+
+Lemma lit_load_line li minlit cps k c0 r :
+  (minlit <= li)%nat -> forallb ok_cp cps = true -> literal_safe (utf8 cps) = true ->
+  (k < li)%nat -> ok_start c0 ->
+  lit_load (10 :: lit_body li true (decode (utf8 cps)) ++ 10 :: repeat SP k ++ c0 :: r) minlit = Some (utf8 cps, c0 :: r, k).
+Proof.
+  intros ML OK SAFE K (N32 & N10 & N9 & BC). rewrite decode_utf8 by exact OK. rewrite lit_body_bytes by exact OK.
+  set (s := utf8 cps) in *. unfold literal_safe in SAFE. destruct s as [|b0 s0] eqn:ES; [discriminate|].
+  apply andb_true_iff in SAFE. destruct SAFE as [SAFE CH]. apply andb_true_iff in SAFE. destruct SAFE as [SAFE E1].
+  apply andb_true_iff in SAFE. destruct SAFE as [NL NS].
+  apply negb_true_iff, N.eqb_neq in NL. apply negb_true_iff, N.eqb_neq in NS.
+  destruct (ends_in_one_lf_inv _ E1) as (p & EP & P).
+  destruct p as [|b0' body]; [cbn in EP; inversion EP; subst; congruence|].
+  cbn [app] in EP. inversion EP as [[EB ES0]]. subst b0'.
+  assert (Forall lit_byte_ok (b0 :: body)) as FB.
+  { assert (Forall (fun b => lit_char_ok b = true) (b0 :: s0)) as FC by (apply Forall_forall; now apply forallb_forall).
+    rewrite ES0 in FC. change (b0 :: body ++ [10]) with ((b0 :: body) ++ [10]) in FC.
+    apply Forall_app in FC. destruct FC as [FC _]. eapply Forall_impl; [|exact FC]. apply lit_char_ok_byte. }
+  inversion FB as [|? ? B0 FB']; subst.
+  unfold lit_load. change (10 =? 10) with true. cbv iota.
+  cbn [lit_bytes]. replace (b0 =? 10) with false by (symmetry; now apply N.eqb_neq).
+  rewrite <- app_assoc. rewrite lit_scan_spaces by (now left). cbn [app lit_scan Nat.add].
+  replace (b0 =? 32) with false by (symmetry; now apply N.eqb_neq). cbn [andb].
+  replace (Nat.max minlit li) with li by lia. rewrite Nat.ltb_irrefl. rewrite andb_false_r.
+  rewrite (bad_false _ B0). replace (b0 =? 10) with false by (symmetry; now apply N.eqb_neq).
+  destruct (lit_scan_body li (10 :: repeat SP k ++ c0 :: r) body FB') as [Hm _]. rewrite Hm.
+  change (10 :: repeat SP k ++ c0 :: r) with (repeat 10 1 ++ repeat SP k ++ c0 :: r).
+  rewrite lit_scan_tail by assumption.
+  f_equal. f_equal. f_equal. unfold clip. rewrite rev_append_rev.
+  assert (exists x xs, rev body ++ [b0] = x :: xs /\ x <> 10) as (x & xs & X & XN).
+  { destruct P as [P|(p' & y & P & Y)]; [discriminate P|].
+    destruct (rev body) as [|z zs] eqn:R; [exists b0, []; split; [reflexivity|exact NL]|].
+    exists z, (zs ++ [b0]). split; [reflexivity|].
+    assert (rev (b0 :: body) = rev (p' ++ [y])) as Q by now rewrite P. cbn [rev] in Q. rewrite R, rev_app_distr in Q. cbn in Q.
+    inversion Q; subst. exact Y. }
+  rewrite X. rewrite drop_lfs_repeat by exact XN. cbn [repeat app]. change (10 =? 10) with true. cbv iota.
+  rewrite <- X. cbn [rev]. rewrite rev_app_distr, rev_involutive. reflexivity.
+Qed.
+
+Lemma block_node_inline f l c minlit akey s rest c1 b rest' k :
+  flow_scalar l c = Some (s, rest, c1) -> follows_b b rest rest' k ->
+  exists c', block_node (S f) l c minlit akey = Some (Scalar (unnums s), rest', c') /\ (rest' <> [] -> c' = k).
+Proof.
+  intros E FO. destruct l as [|x l]; [discriminate E|].
+  assert (x <> 91 /\ x <> 123 /\ x <> 124 /\ x <> 45 /\ x <> 63) as (N1 & N2 & N3 & N4 & N5).
+  { repeat split; intros ->; cbn in E; discriminate E. }
+  cbn [block_node].
+  replace (x =? 91) with false by (symmetry; now apply N.eqb_neq).
+  replace (x =? 123) with false by (symmetry; now apply N.eqb_neq).
+  replace (x =? 124) with false by (symmetry; now apply N.eqb_neq). cbn [orb].
+  rewrite is_seq_mark_other, is_longkey_mark_other by assumption. cbn [andb].
+  unfold key_scalar. rewrite E. rewrite (follows_b_not_value _ _ _ _ FO). cbn [andb].
+  destruct (to_ls_follows _ _ _ _ c1 FO) as (c' & T & CK). rewrite T. eauto.
+Qed.
+
+Lemma follows_rest_ok b rest rest' k : follows_b b rest rest' k -> rest_ok rest.
+Proof. intros H. destruct H; cbn; auto. Qed.
+
+Definition nb_head (w : octs) : Prop := match w with x :: _ => x <> 32 /\ x <> 10 | [] => False end.
+
+Lemma block_scalar_reads s li minlit c akey b :
+  wf_scalar (nums s) -> (minlit <= li)%nat -> (b <= li)%nat ->
+  BlockReads (Scalar s) (scalar_bytes false li (nums s)) c minlit akey b /\ nb_head (scalar_bytes false li (nums s)).
+Proof.
+  intros [V _] ML BL. destruct (scalar_fmt false (nums s)) eqn:F.
+  1,2: assert (inline_fmt (scalar_fmt false (nums s))) as IF by (rewrite F; discriminate).
+  1,2: split; [|pose proof (proj2 (inline_scalar_reads false li (nums s) [] 0%nat V IF I)) as H;
+                 pose proof (tok_head_facts _ H) as Q; destruct (scalar_bytes false li (nums s)); [contradiction|cbn; tauto]].
+  1,2: intros fuel rest rest' k L FO; destruct fuel as [|f]; [lia|];
+       destruct (inline_scalar_reads false li (nums s) rest c V IF (follows_rest_ok _ _ _ _ FO)) as [E _];
+       destruct (block_node_inline f _ c minlit akey _ _ _ b rest' k E FO) as (c' & E' & CK);
+       exists c'; rewrite E', unnums_nums; auto.
+  (* literal *)
+  unfold scalar_bytes. rewrite F. cbn [scalar_bytes_f]. split; [|cbn; split; discriminate].
+  destruct V as (cps & OK & EV).
+  assert (literal_safe (nums s) = true) as SAFE.
+  { unfold scalar_fmt, compute_fmt, style_request, style_request_fixed in F.
+    destruct (existsb is_break (nums s)).
+    - destruct (literal_safe (nums s)); [reflexivity|discriminate F].
+    - destruct (forallb plain_class (nums s) && negb (three_dots (nums s))); [destruct (is_null_word (nums s))|]; discriminate F. }
+  rewrite EV in *.
+  intros fuel rest rest' k L FO. destruct fuel as [|f]; [lia|]. unfold lit_write. cbn [app block_node].
+  change (124 =? 91) with false. change (124 =? 123) with false. change (124 =? 124) with true. cbn [orb]. cbv iota.
+  destruct FO as [c1|k c0 r K OS].
+  - rewrite app_nil_r. destruct (lit_load_end li minlit cps ML OK SAFE) as (c' & E). rewrite E, <- EV, unnums_nums.
+    exists c'. split; [reflexivity|congruence].
+  - rewrite (lit_load_line li minlit cps k c0 r ML OK SAFE) by (lia || exact OS). rewrite <- EV, unnums_nums.
+    exists k. split; reflexivity.
+Qed.
+
+(** ** flow groups met in block context *)
+Lemma flow_group_head t w : FlowReads t w -> match t with Lst _ | Map _ => True | _ => False end ->
+  match w with x :: _ => x = 91 \/ x = 123 | [] => False end.
+Proof.
+  intros [TH FR] G. destruct w as [|x w]; [contradiction|]. cbn in TH.
+  destruct TH as [->|[->|H]]; auto. exfalso.
+  destruct (FR (S (S (length (x :: w)))) [] 0%nat) as (c' & E); [lia|exact I|].
+  rewrite app_nil_r in E. cbn [flow_node] in E.
+  assert (x <> 91 /\ x <> 123) as [N1 N2] by (destruct H as [->|H]; split; try discriminate; intros ->; discriminate H).
+  replace (x =? 91) with false in E by (symmetry; now apply N.eqb_neq).
+  replace (x =? 123) with false in E by (symmetry; now apply N.eqb_neq).
+  destruct (flow_scalar (x :: w) 0) as [[[a b'] c0]|]; [|discriminate E]. inversion E; subst. contradiction.
+Qed.
+
+Lemma flow_in_block t w c minlit akey b : FlowReads t w -> match t with Lst _ | Map _ => True | _ => False end ->
+  BlockReads t w c minlit akey b /\ nb_head w.
+Proof.
+  intros FRD G. pose proof (flow_group_head _ _ FRD G) as HD. destruct FRD as [TH FR].
+  destruct w as [|x w]; [contradiction|]. split; [|destruct HD as [->| ->]; cbn; split; discriminate].
+  intros fuel rest rest' k L FO. destruct fuel as [|f]; [lia|]. cbn [app block_node].
+  replace ((x =? 91) || (x =? 123)) with true by (destruct HD as [->| ->]; reflexivity).
+  destruct (FR (S (length (x :: w ++ rest))) rest c) as (c1 & E); [cbn [length]; rewrite app_length; cbn [length]; lia|eapply follows_rest_ok; eauto|].
+  cbn [app] in E. rewrite E. destruct (to_ls_follows _ _ _ _ c1 FO) as (c' & T & CK). rewrite T. eauto.
+Qed.
+
+(** ** block sequences: the parser's steps *)
+Definition seq_elem (f : nat) (r : octs) (c m : nat) : option (item * octs * nat) :=
+  match r with
+  | 32 :: _ =>
+      let '(r1, c1) := skip_sp r (S c) in
+      match r1 with
+      | [] => Some (Null, [], c1)
+      | _ => block_node f r1 c1 (S m) true
+      end
+  | _ =>
+      match to_ls r (S c) with
+      | Some (r1, c1) =>
+          match r1 with
+          | [] => Some (Null, [], c1)
+          | _ => if Nat.ltb m c1 then block_node f r1 c1 (S m) true else Some (Null, r1, c1)
+          end
+      | None => None
+      end
+  end.
+
+Definition block_seq_after (f : nat) (x : item) (acc : list item) (r2 : octs) (c2 m : nat) : option (item * octs * nat) :=
+  match r2 with
+  | [] => Some (Lst (rev (x :: acc)), [], c2)
+  | _ =>
+      if Nat.ltb c2 m then Some (Lst (rev (x :: acc)), r2, c2)
+      else if (Nat.eqb c2 m && is_seq_mark r2)%bool then block_seq f r2 c2 m (x :: acc)
+      else None
+  end.
+
+Lemma block_seq_S f r c m acc :
+  block_seq (S f) (45 :: r) c m acc =
+  match seq_elem f r c m with Some (x, r2, c2) => block_seq_after f x acc r2 c2 m | None => None end.
+Proof. reflexivity. Qed.
+
+Lemma nb_head_app w rest : nb_head w -> exists x t, w ++ rest = x :: t /\ x <> 32 /\ x <> 10.
+Proof. destruct w as [|x w]; [contradiction|]. intros [A B]. exists x, (w ++ rest). auto. Qed.
+
+Lemma seq_elem_inline f p w rest c m : nb_head w ->
+  seq_elem f (repeat SP (S p) ++ w ++ rest) c m = block_node f (w ++ rest) (S c + S p)%nat (S m) true.
+Proof.
+  intros H. destruct (nb_head_app w rest H) as (x & t & E & N1 & N2). unfold seq_elem. cbn [repeat app].
+  change (SP :: repeat SP p ++ w ++ rest) with (repeat SP (S p) ++ w ++ rest).
+  rewrite skip_sp_repeat, E. rewrite skip_sp_stop by exact N1. reflexivity.
+Qed.
+
+Lemma seq_elem_nextline f p w rest c m : nb_head w -> (m < p)%nat ->
+  seq_elem f (10 :: repeat SP p ++ w ++ rest) c m = block_node f (w ++ rest) p (S m) true.
+Proof.
+  intros H MP. destruct (nb_head_app w rest H) as (x & t & E & N1 & N2). unfold seq_elem. rewrite E.
+  unfold to_ls. cbn [next_line]. change (10 =? 10) with true. cbv iota. rewrite next_line_spaces by assumption.
+  cbn [Nat.add]. replace (Nat.ltb m p) with true by (symmetry; apply Nat.ltb_lt; exact MP). reflexivity.
+Qed.
+
+(** ** what the block Prepare functions write *)
+Definition glue (ck : ckind) : octs := match ck with CInline => [32] | CBSeq => [10] | CBMap => [] end.
+Definition gcol (n : nat) (ck : ckind) : nat := match ck with CInline => (n + 2)%nat | CBSeq => 0%nat | CBMap => (n + 1)%nat end.
+
+Lemma col_put_app_char o w c : c <> 10 -> col (put o (w ++ [c])) = S (col (put o w)).
+Proof. intros H. rewrite <- put_put. now apply col_put_char. Qed.
+
+Lemma prep_bseq_core n k ck o :
+  prep_bseq n k ck o =
+  match ck with
+  | CInline => space_or_indent (put (indent_to (nl_if (Nat.ltb 0 k) o) n) [45]) false (n + 2)
+  | CBSeq => put (put (indent_to (nl_if (Nat.ltb 0 k) o) n) [45]) [LF]
+  | CBMap => put (indent_to (nl_if (Nat.ltb 0 k) o) n) [45]
+  end.
+Proof. reflexivity. Qed.
+
+Lemma prep_bseq_tail n ck o1 : col o1 = n ->
+  (match ck with CInline => space_or_indent (put o1 [45]) false (n + 2) | CBSeq => put (put o1 [45]) [LF] | CBMap => put o1 [45] end)
+   = put o1 (45 :: glue ck) /\
+  col (put o1 (45 :: glue ck)) = gcol n ck.
+Proof.
+  intros C. destruct ck; cbn [glue gcol].
+  - rewrite space_or_indent_put. rewrite andb_false_r. rewrite col_put_char, C by discriminate.
+    replace (n + 2 - S n)%nat with 1%nat by lia. cbn [repeat app]. rewrite put_put. split; [reflexivity|].
+    change [45; 32] with ([45] ++ [32]). rewrite col_put_app_char, col_put_char by discriminate. lia.
+  - rewrite put_put. split; reflexivity.
+  - split; [reflexivity|]. rewrite col_put_char by discriminate. lia.
+Qed.
+
+Lemma prep_bseq_first n ck o : (col o <= n)%nat ->
+  prep_bseq n 0 ck o = put o (repeat SP (n - col o) ++ 45 :: glue ck) /\ col (prep_bseq n 0 ck o) = gcol n ck.
+Proof.
+  intros C. rewrite prep_bseq_core. cbn [Nat.ltb Nat.leb nl_if]. rewrite indent_to_put.
+  assert (col (put o (repeat SP (n - col o))) = n) as CN by (rewrite col_put_spaces; lia).
+  destruct (prep_bseq_tail n ck _ CN) as [E1 E2]. rewrite E1. split; [now rewrite put_put|exact E2].
+Qed.
+
+Lemma prep_bseq_next n k ck o : (0 < k)%nat ->
+  prep_bseq n k ck o = put o (10 :: repeat SP n ++ 45 :: glue ck) /\ col (prep_bseq n k ck o) = gcol n ck.
+Proof.
+  intros K. rewrite prep_bseq_core. replace (Nat.ltb 0 k) with true by (symmetry; apply Nat.ltb_lt; exact K).
+  cbn [nl_if]. rewrite indent_to_put. rewrite col_put_lf, Nat.sub_0_r.
+  assert (col (put (put o [LF]) (repeat SP n)) = n) as CN by (rewrite col_put_spaces, col_put_lf; lia).
+  destruct (prep_bseq_tail n ck _ CN) as [E1 E2]. rewrite E1. split; [now rewrite !put_put|exact E2].
+Qed.
+
+(** ** the induction statement for block context *)
+Definition kindd (d : nat) (t : item) : ckind :=
+  match t with
+  | Lst _ => if Nat.leb 3 d then CInline else CBSeq
+  | Map _ => if Nat.leb 3 d then CInline else CBMap
+  | _ => CInline
+  end.
+
+Definition is_bgroup (d : nat) (t : item) : Prop :=
+  match t with Lst _ | Map _ => (d <= 2)%nat | _ => False end.
+
+Definition P_block (t : item) : Prop :=
+  forall d li gi prep o minlit b,
+  (d <= 3)%nat -> tree_ok t -> t <> Null -> (minlit <= li)%nat -> (b <= li)%nat -> (b <= gi)%nat ->
+  (is_bgroup d t -> (col (prep (kindd d t) o) <= gi)%nat) ->
+  exists p w, emit_node d li gi prep t o = put (prep (kindd d t) o) (repeat SP p ++ w) /\
+    (is_bgroup d t -> (col (prep (kindd d t) o) + p = gi)%nat) /\ nb_head w /\
+    forall c akey, (is_bgroup d t -> c = gi /\ akey = true) -> BlockReads (prune t) w c minlit akey b.
+
+Lemma is_bgroup_kind d t : is_bgroup d t -> kindd d t = CBSeq \/ kindd d t = CBMap.
+Proof. destruct t; cbn [is_bgroup kindd]; try tauto; intros H; replace (Nat.leb 3 d) with false by (symmetry; apply Nat.leb_gt; lia); auto. Qed.
+
+Lemma not_bgroup_kind d t : ~ is_bgroup d t -> kindd d t = CInline.
+Proof. destruct t; cbn [is_bgroup kindd]; try tauto; intros H; replace (Nat.leb 3 d) with true by (symmetry; apply Nat.leb_le; lia); auto. Qed.
+
+Lemma is_bgroup_dec d t : is_bgroup d t \/ ~ is_bgroup d t.
+Proof. destruct t; cbn [is_bgroup]; try tauto; lia. Qed.
+
+(** one child of a block sequence whose dashes stand in column [n] *)
+Lemma seq_child_reads d n x : (d <= 2)%nat -> P_block x -> tree_ok x -> x <> Null ->
+  forall k o, (k = 0%nat -> (col o <= n)%nat) ->
+  exists E, seq_child d n k x o = put o ((if Nat.eqb k 0 then repeat SP (n - col o) else 10 :: repeat SP n) ++ 45 :: E) /\
+    (forall t, starts_blank_or_end (E ++ t) = true) /\
+    forall f rest R2 K2, (length E < f)%nat -> follows_b (S n) rest R2 K2 ->
+      exists c2, seq_elem f (E ++ rest) n n = Some (prune x, R2, c2) /\ (R2 <> [] -> c2 = K2).
+Proof.
+  intros D PX TX NX k o CK. unfold seq_child. replace (Nat.leb 3 d) with false by (symmetry; apply Nat.leb_gt; lia).
+  set (ck := kindd (S d) x).
+  assert (prep_bseq n k ck o = put o ((if Nat.eqb k 0 then repeat SP (n - col o) else 10 :: repeat SP n) ++ 45 :: glue ck) /\
+          col (prep_bseq n k ck o) = gcol n ck) as [EP CP].
+  { destruct k as [|k]; cbn [Nat.eqb]; [apply prep_bseq_first; auto|]. destruct (prep_bseq_next n (S k) ck o) as [A B]; [lia|]. split; [exact A|exact B]. }
+  destruct (PX (S d) (n + 2)%nat (n + 2)%nat (prep_bseq n k) o (S n) (S n)) as (p & w & EM & CG & NB & BR);
+    [lia|exact TX|exact NX|lia|lia|lia| |].
+  { intros BG. fold ck. rewrite CP. destruct (is_bgroup_kind _ _ BG) as [Q|Q]; fold ck in Q; rewrite Q; cbn; lia. }
+  fold ck in EM, CG, BR. rewrite EM, EP, put_put.
+  exists (glue ck ++ repeat SP p ++ w). split; [f_equal; repeat (rewrite <- app_assoc; cbn [app]); reflexivity|].
+  destruct (is_bgroup_dec (S d) x) as [BG|NBG].
+  - specialize (CG BG). rewrite CP in CG. destruct (is_bgroup_kind _ _ BG) as [Q|Q]; fold ck in Q; rewrite Q in *; cbn [glue gcol] in *.
+    + (* block sequence on the next line *)
+      split; [intros t; reflexivity|]. intros f rest R2 K2 L FO. cbn [app]. rewrite <- app_assoc.
+      rewrite seq_elem_nextline by (exact NB || lia).
+      rewrite !app_length in L. cbn [length] in L.
+      apply (BR p true (fun _ => conj (eq_sym (eq_trans (eq_sym CG) eq_refl)) eq_refl)); [lia|exact FO].
+    + (* block map right after the dash *)
+      assert (p = 1%nat) as -> by lia. split; [intros t; reflexivity|]. intros f rest R2 K2 L FO. cbn [app]. rewrite <- app_assoc.
+      rewrite (seq_elem_inline f 0 w rest n n NB).
+      rewrite !app_length in L. cbn [length] in L.
+      apply (BR (S n + 1)%nat true); [intros _; split; [lia|reflexivity]|lia|exact FO].
+  - assert (ck = CInline) as Q by (apply not_bgroup_kind; exact NBG). clearbody ck. subst ck. cbn [glue]. split; [intros t; reflexivity|].
+    intros f rest R2 K2 L FO.
+    replace (([32] ++ repeat SP p ++ w) ++ rest) with (repeat SP (S p) ++ w ++ rest)
+      by (cbn [repeat app]; now rewrite <- app_assoc).
+    rewrite (seq_elem_inline f p w rest n n NB). cbn [app] in L.
+    change (32 :: repeat SP p ++ w) with (repeat SP (S p) ++ w) in L. rewrite !app_length in L. rewrite repeat_length in L.
+    apply (BR (S n + S p)%nat true); [tauto|lia|exact FO].
+Qed.
+
+Lemma block_seq_after_stop f x acc b n rest rest' kf c2 :
+  (b <= n)%nat -> follows_b b rest rest' kf -> (rest' <> [] -> c2 = kf) ->
+  exists c', block_seq_after f x acc rest' c2 n = Some (Lst (rev acc ++ [x]), rest', c') /\ (rest' <> [] -> c' = kf).
+Proof.
+  intros BN FO CK. destruct FO as [c1|k c0 r K OS]; cbn [block_seq_after rev].
+  - eauto.
+  - specialize (CK ltac:(discriminate)). subst c2.
+    replace (Nat.ltb k n) with true by (symmetry; apply Nat.ltb_lt; lia). eauto.
+Qed.
+
+(** the children of a block sequence after the first one *)
+Lemma block_seq_rest d n b l : (d <= 2)%nat -> (b <= n)%nat -> Forall P_block l -> Forall tree_ok l ->
+  forall k o, (1 <= k)%nat ->
+  exists W k', seq_loop (seq_child d n) l k o = (put o W, k') /\ (1 <= k')%nat /\
+    forall rest rest' kf, follows_b b rest rest' kf ->
+      exists R2 K2, follows_b (S n) (W ++ rest) R2 K2 /\
+        forall f x acc c2, (length W < f)%nat -> (R2 <> [] -> c2 = K2) ->
+          exists c', block_seq_after f x acc R2 c2 n = Some (Lst (rev acc ++ x :: pruned_list l), rest', c') /\ (rest' <> [] -> c' = kf).
+Proof.
+  intros D BN. induction l as [|x0 r IH]; intros FP FT k o K.
+  - exists [], k. cbn [seq_loop]. repeat split; auto. intros rest rest' kf FO. exists rest', kf. cbn [app]. split.
+    + eapply follows_b_weaken; [|exact FO]. lia.
+    + intros f x acc c2 _ CK. cbn [pruned_list filter map]. eapply block_seq_after_stop; eauto.
+  - inversion FP as [|? ? P0 FP']; subst. inversion FT as [|? ? T0 FT']; subst. cbn [seq_loop].
+    destruct (is_nullb x0) eqn:NB.
+    + destruct (IH FP' FT' k o K) as (W & k' & E & K' & R). exists W, k'. repeat split; auto.
+      intros rest rest' kf FO. destruct (R rest rest' kf FO) as (R2 & K2 & F2 & RD). exists R2, K2. split; [exact F2|].
+      intros f x acc c2 L CK. destruct (RD f x acc c2 L CK) as (c' & E' & CK'). exists c'. rewrite E'.
+      unfold pruned_list. cbn [filter]. rewrite NB. auto.
+    + destruct (seq_child_reads d n x0 D P0 T0 (is_nullb_false _ NB) k o) as (E0 & EM & SB & RD0); [lia|].
+      replace (Nat.eqb k 0) with false in EM by (symmetry; apply Nat.eqb_neq; lia). rewrite EM.
+      destruct (IH FP' FT' (S k) (put o ((10 :: repeat SP n) ++ 45 :: E0))) as (W & k' & EL & K' & R); [lia|].
+      exists (((10 :: repeat SP n) ++ 45 :: E0) ++ W), k'. rewrite EL, put_put. repeat split; auto.
+      intros rest rest' kf FO. destruct (R rest rest' kf FO) as (R2 & K2 & F2 & RD).
+      exists (45 :: E0 ++ W ++ rest), n. split.
+      * replace ((((10 :: repeat SP n) ++ 45 :: E0) ++ W) ++ rest) with (10 :: repeat SP n ++ 45 :: E0 ++ W ++ rest)
+          by (cbn [app]; repeat (rewrite <- app_assoc; cbn [app]); reflexivity).
+        constructor; [lia|]. repeat split; discriminate.
+      * intros f x acc c2 L CK. specialize (CK ltac:(discriminate)). subst c2. cbn [block_seq_after].
+        rewrite Nat.ltb_irrefl, Nat.eqb_refl. cbn [andb is_seq_mark]. rewrite SB.
+        rewrite ?app_length in L; cbn [length app] in L; rewrite ?app_length in L; cbn [length app] in L; rewrite ?app_length, ?repeat_length in L.
+        destruct f as [|f]; [lia|]. rewrite block_seq_S.
+        destruct (RD0 f (W ++ rest) R2 K2) as (c2 & E2 & CK2); [lia|exact F2|]. rewrite E2.
+        destruct (RD f (prune x0) (x :: acc) c2) as (c' & E' & CK'); [lia|exact CK2|]. exists c'. rewrite E'.
+        unfold pruned_list. cbn [filter rev]. rewrite NB. cbn [negb map]. rewrite <- app_assoc. auto.
+Qed.
